@@ -308,6 +308,12 @@ func execPromise(t []string) string {
 		return execJoinPending()
 	case len(t) == 1 && t[0] == "joinchain":
 		return execJoinChain()
+	case len(t) == 1 && t[0] == "joininflight":
+		return execJoinInflight()
+	case len(t) == 3 && t[0] == "joinrel":
+		return execJoinRel(t[1:])
+	case len(t) == 2 && t[0] == "joinrel":
+		return execJoinRel([]string{t[1], ""})
 	case len(t) == 2 && t[0] == "script":
 		return execPromiseScript(t[1])
 	case len(t) == 3 && t[0] == "join":
@@ -412,11 +418,141 @@ func execJoinChain() string {
 	})
 }
 
+// execJoinInflight: B has a pipelined call still inside its caller when B.Join(A) is called (A unresolved): Join waits
+// for that call.  A second pipelined call made on B during the wait must be delivered exactly once — to A's caller.
+func execJoinInflight() string {
+	return timed(8*time.Second, func() string {
+		ca := &recCaller{}
+		gb := &gateCaller{gate: make(chan struct{})}
+		a := capnp.NewPromise(capnp.Method{}, ca)
+		b := capnp.NewPromise(capnp.Method{}, gb)
+		c1 := make(chan struct{})
+		go func() { b.Answer().PipelineSend(context.Background(), pathOps(true), capnp.Send{}); close(c1) }()
+		if !waitUntil(func() bool { return atomic.LoadInt32(&gb.entered) == 1 }) {
+			return "setup-failed"
+		}
+		jb := make(chan struct{})
+		go func() { b.Join(a.Answer()); close(jb) }()
+		time.Sleep(30 * time.Millisecond) // Join is waiting for call 1 now
+		c2 := make(chan error, 1)
+		go func() {
+			ctx, cancel := context.WithTimeout(context.Background(), 3*time.Second)
+			defer cancel()
+			ans, rel := b.Answer().PipelineSend(ctx, pathOps(true), capnp.Send{})
+			_, err := ans.Struct()
+			rel()
+			c2 <- err
+		}()
+		time.Sleep(30 * time.Millisecond)
+		gb.gate <- struct{}{} // call 1 yields: the Join completes
+		select {
+		case <-jb:
+		case <-time.After(2 * time.Second):
+			return "join-does-not-finish"
+		}
+		<-c1
+		res := "ok"
+		select {
+		case err := <-c2:
+			if err == nil || !strings.Contains(err.Error(), "recHook") {
+				res = "call-during-join-not-answered-by-the-parent's-caller"
+			}
+		case <-time.After(4 * time.Second):
+			res = "call-during-join-blocked"
+		}
+		if n := atomic.LoadInt32(&ca.n); res == "ok" && n != 1 {
+			res = "parent's-caller-saw-" + strconv.Itoa(int(n)) + "-calls-want-1"
+		}
+		if n := atomic.LoadInt32(&gb.entered); res == "ok" && n != 1 {
+			res = "child's-caller-saw-" + strconv.Itoa(int(n)) + "-calls-want-1"
+		}
+		ha, hb := &countHook{}, &countHook{}
+		r, _ := resultWithCaps(ha, hb)
+		a.Fulfill(r)
+		a.ReleaseClients()
+		b.ReleaseClients()
+		return res
+	})
+}
+
+// execJoinRel: "promise joinrel <clients> <seq>": B is joined onto A; pipelined clients were handed out from A
+// (clients&1) and from B (clients&2) before the join; A is fulfilled with a result holding capability X.  seq is a
+// string over a / b (ReleaseClients on A / B, repeats are harmless by contract) and x / y (a call through the client
+// from A / B).  The clients stay usable until every promise of the chain has released; afterwards they are dead, and
+// once the result message and the harness have let go X is shut down exactly once.
+func execJoinRel(t []string) string {
+	return timed(8*time.Second, func() string {
+		which, _ := strconv.Atoi(t[0])
+		a := capnp.NewPromise(capnp.Method{}, &recCaller{})
+		b := capnp.NewPromise(capnp.Method{}, &recCaller{})
+		var ca, cb *capnp.Client
+		if which&1 != 0 {
+			ca = a.Answer().Field(0, nil).Client()
+		}
+		if which&2 != 0 {
+			cb = b.Answer().Field(0, nil).Client()
+		}
+		b.Join(a.Answer())
+		hx, hb := &countHook{}, &countHook{}
+		r, msg := resultWithCaps(hx, hb)
+		a.Fulfill(r)
+		relA, relB := false, false
+		calls := int32(0)
+		for _, c := range t[1] {
+			switch c {
+			case 'a':
+				a.ReleaseClients()
+				relA = true
+			case 'b':
+				b.ReleaseClients()
+				relB = true
+			case 'x', 'y':
+				cl := ca
+				if c == 'y' {
+					cl = cb
+				}
+				if cl == nil {
+					continue
+				}
+				live := !(relA && relB)
+				if cl.IsValid() != live {
+					return "pipelined-client-valid=" + strconv.FormatBool(cl.IsValid()) + "-want-" + strconv.FormatBool(live) + "-at-" + string(c)
+				}
+				if live {
+					cl.SendCall(context.Background(), capnp.Send{})
+					calls++
+					if atomic.LoadInt32(&hx.n) != calls {
+						return "call-through-pipelined-client-not-delivered-at-" + string(c)
+					}
+				}
+			default:
+				return "bad-op"
+			}
+		}
+		a.ReleaseClients()
+		b.ReleaseClients()
+		if (ca != nil && ca.IsValid()) || (cb != nil && cb.IsValid()) {
+			return "pipelined-client-alive-after-every-ReleaseClients"
+		}
+		msg.Reset(nil)
+		if n := atomic.LoadInt32(&hx.shutdowns); n != 1 {
+			return "result-capability-shut-down-" + strconv.Itoa(int(n)) + "-times-want-1"
+		}
+		return "ok"
+	})
+}
+
 func genC11(rec *lib.Rec, r *lib.Rng, thorough bool) {
 	if Shard == 0 {
 		rec.Op("S", "promise proxyrace", true)
 		rec.Op("S", "promise joinpending", true)
 		rec.Op("S", "promise joinchain", true)
+		rec.Op("S", "promise joininflight", true)
+		for which := 0; which <= 3; which++ {
+			for _, seq := range []string{"ab", "ba", "xbyaxy", "bbxya", "aaybx", "xybbaaxy", "bxbaybx", "yabab", "b", "a", ""} {
+				rec.Op("S", "promise joinrel "+strconv.Itoa(which)+" "+seq, true)
+			}
+		}
 		for _, pcl := range []string{"0", "1"} {
 			for cc := 0; cc <= 3; cc++ {
 				rec.Op("S", "promise join "+pcl+" "+strconv.Itoa(cc), true)
